@@ -21,18 +21,21 @@ SPECS = [
      "immutable": ["buffer", "capacity", "max_msg_size", "msg_slot_size", "flags"],
      "alias_calls": {"get_slot": "slots"},          # a local initialised from this call points into the shared buffer
      "alias_members": {},
+     "other": ["not_full", "not_empty"],          # the events: synchronisation objects themselves
      "exempt": ["async_queue_create", "async_queue_destroy"]},
     {"key": "epoll", "file": "lib/async/async_runtime_epoll.c",
      "lock": ("pthread_mutex_lock", "ring_lock"), "unlock": ("pthread_mutex_unlock", "ring_lock"),
      "wait": None, "set": None,
      "shared": ["ring", "ring_head", "ring_count"], "immutable": [],
      "alias_calls": {}, "alias_members": {"ring": "ring"},   # `&runtime->ring[i]` stored in a local: later uses touch the ring
+     "other": ["epoll_fd", "event_fd", "console_type"],       # set by init / by the backend thread only
      "exempt": ["async_runtime_init", "async_runtime_deinit"]},
     {"key": "poll", "file": "lib/async/async_runtime_poll.c", "undef": ["__linux__"],
      "lock": ("pthread_mutex_lock", "ring_lock"), "unlock": ("pthread_mutex_unlock", "ring_lock"),
      "wait": None, "set": None,
      "shared": ["ring", "ring_head", "ring_count"], "immutable": [],
      "alias_calls": {}, "alias_members": {"ring": "ring"},
+     "other": ["pollfds", "mappings", "capacity", "count", "notify_pipe", "console_type"],   # backend thread only / init
      "exempt": ["async_runtime_init", "async_runtime_deinit"]},
 ]
 
@@ -280,10 +283,39 @@ inductive LStmt
 '''
 
 
+def check_fields(spec):
+    """the shared / immutable member names of the spec must be members of the structure the file defines: a field that
+    was renamed would otherwise simply produce no accesses (the discipline would hold vacuously for it)"""
+    import re
+    src = open(os.path.join(E.REPO, spec["file"])).read()
+    src = re.sub(r"/\*.*?\*/", " ", src, flags=re.S)
+    src = re.sub(r"//[^\n]*", " ", src)
+    m = re.search(r"struct\s+async_(?:queue|runtime)_s\s*\{(.*?)\n\};", src, flags=re.S)
+    if not m:
+        raise X.TieBroken("locks:%s:struct" % spec["key"], "definition of the shared structure not found in %s" % spec["file"])
+    body = m.group(1)
+    members = set(re.findall(r"([A-Za-z_]\w*)\s*(?:\[[^\]]*\])?\s*;", body))
+    lockm = spec["lock"][1]
+    missing = [f for f in spec["shared"] + spec["immutable"] + [lockm] if f not in members]
+    if missing:
+        raise X.TieBroken("locks:%s:fields" % spec["key"],
+                          "member(s) %s not found in the structure of %s (renamed? the spec in props/c19_extract.py "
+                          "lists the fields the mutex protects)" % (", ".join(missing), spec["file"]))
+    # a member the spec does not classify: report it, the discipline says nothing about it
+    known = set(spec["shared"] + spec["immutable"] + [lockm] + spec.get("other", []))
+    return sorted(members - known)
+
+
 def gen_locks(bdir):
     """Lean text: the types and `lockedFunctions : List (String × LStmt)`"""
     out = [LEAN_TYPES]
     names = []
+    unclassified = []
+    for spec in SPECS:
+        unclassified += ["%s.%s" % (spec["key"], f) for f in check_fields(spec)]
+    out.append("/-- members of the three structures that the lock-discipline spec does not classify (neither protected by the\n"
+               "    mutex nor immutable after create): synchronisation objects, fields used by the backend thread only -/\n"
+               "def lockUnclassifiedMembers : List String := [" + ", ".join('"%s"' % u for u in unclassified) + "]")
     for spec in SPECS:
         for fn in functions_of(spec):
             ast, owner = _ast(bdir, spec, fn)
